@@ -623,6 +623,22 @@ pub fn check_lb_case(case: &str, c: &LbCase, cmd: &str, drv: &mut Driver, rep: &
     }
 }
 
+/// Alphabet for records terminated by `lt`: ordinary bytes plus, regularly, the bytes that are a
+/// terminator under *another* setting (LF / CR inside NUL records, NUL / bare CR inside LF lines,
+/// bare CR in CRLF mode), so that a wrong terminator anywhere in the plumbing cuts differently.
+pub fn alphabet_with_foreign(lt: u8, base: &[u8]) -> Vec<u8> {
+    let mut a: Vec<u8> = vec![];
+    for _ in 0..2 {
+        a.extend_from_slice(base);
+    }
+    for &f in &[b'\n', b'\r', 0u8] {
+        if f != lt {
+            a.push(f);
+        }
+    }
+    a
+}
+
 /// Random line-structured input.
 pub fn gen_lines(rng: &mut Rng, lt: u8, crlf: bool, max_lines: usize, max_len: usize, alphabet: &[u8]) -> Vec<u8> {
     let mut out = vec![];
@@ -645,7 +661,7 @@ pub fn gen_lines(rng: &mut Rng, lt: u8, crlf: bool, max_lines: usize, max_len: u
 /// Generate one roll-buffer case (ops are derived by driving the real buffer).
 pub fn gen_lb_case(rng: &mut Rng, bin: Bin, boundary: bool) -> LbCase {
     let lt = *rng.pick(&[b'\n', b'\n', b'\n', 0u8, b';']);
-    let mut alphabet: Vec<u8> = b"abc x".to_vec();
+    let mut alphabet: Vec<u8> = if rng.chance(1, 2) { alphabet_with_foreign(lt, b"abc x") } else { b"abc x".to_vec() };
     match bin {
         Bin::Quit(b) | Bin::Convert(b) => {
             if rng.chance(2, 3) {
